@@ -16,6 +16,7 @@ Oracle (independent of the model): `ipaddress.ip_network(strict=False)` on the d
 generator wrote vs the tuple advertised; default/0.x/127.x omitted; junk never raises; every
 advertised network is in the plan the recording pipe received, before NSLIST/GO, once.
 """
+import errno
 import io
 import ipaddress
 import os
@@ -114,8 +115,44 @@ def _mods():
     import sshuttle.client as client
     import sshuttle.server as server
     import sshuttle.helpers as helpers
-    helpers.verbose = 0
     return ssnet, client, server, helpers
+
+
+# ---- diagnostics level: a dimension of every case.  What is advertised and what reaches the plan must not
+# depend on it.  10 + n = level n with a stderr whose write() raises EIO (a forcibly closed terminal).
+LEVELS = [0, 0, 3, 0, 2, 0, 13, 1]
+_case_counter = [0]
+_level_shift = [0]
+
+
+def next_level():
+    """Level of the next case: the rotation indexed by a per-run case counter, shifted by the seed
+    (never drawn from ctx.rng, so the random streams do not depend on it)."""
+    lv = LEVELS[(_case_counter[0] + _level_shift[0]) % len(LEVELS)]
+    _case_counter[0] += 1
+    return lv
+
+
+class EioStderr:
+    def write(self, s):
+        raise OSError(errno.EIO, 'Input/output error')
+
+    def flush(self):
+        raise OSError(errno.EIO, 'Input/output error')
+
+
+def set_diag(level):
+    """sshuttle.helpers.verbose and sys.stderr for a call into the real code; returns what to restore."""
+    import sshuttle.helpers as helpers
+    old = (helpers.verbose, sys.stderr)
+    helpers.verbose = int(level) % 10
+    sys.stderr = EioStderr() if int(level) >= 10 else io.StringIO()
+    return old
+
+
+def clear_diag(old):
+    import sshuttle.helpers as helpers
+    helpers.verbose, sys.stderr = old
 
 
 def excname(e):
@@ -292,8 +329,7 @@ def run_server(tool, output, verbose=0, real=False):
         p.set(server, 'Mux', RecMux)
         p.set(server, 'Hostwatch', StopHostwatch)
         sys.stdout = out
-        sys.stderr = io.StringIO()
-        helpers.verbose = verbose
+        set_diag(verbose)
         box = {}
 
         def body():
@@ -345,7 +381,7 @@ def run_server(tool, output, verbose=0, real=False):
                     pass
 
 
-def line_real(tool, line):
+def line_real(tool, line, level=0):
     """`_list_routes` and `list_routes` of the real code on a one-line tool output."""
     ssnet, client, server, helpers = _mods()
     p = Patches()
@@ -353,7 +389,7 @@ def line_real(tool, line):
     try:
         p.set(server.ssubprocess, 'Popen', FakePopen)
         p.set(server, 'which', lambda name, *a: ('/sbin/' + name) if name in TOOLS[tool] else None)
-        sys.stderr = io.StringIO()
+        set_diag(level)
         FakePopen.output = line
         try:
             kept = list(server.list_routes())
@@ -371,6 +407,7 @@ def line_real(tool, line):
         return 'skip'
     finally:
         p.restore()
+        helpers.verbose = 0
         sys.stderr = old_stderr
 
 
@@ -509,7 +546,7 @@ class ClientRun:
             len(self.auto_nets), self.starts, len(self.plan), zlib.adler32(b''.join(self.plan)), 1 if self.handler else 0)
 
 
-def run_client(flags, wire_chunks, second_payload=None, listen='loop', incl=None, excl=None):
+def run_client(flags, wire_chunks, second_payload=None, listen='loop', incl=None, excl=None, level=0):
     """The real `client._main` over `wire_chunks` (sync header + frames): handshake inside `_main`,
     then the Mux that `_main` created handles the remaining bytes (PING, ROUTES) with the real `onroutes`
     and the real `FirewallClient.start` on a recording pipe."""
@@ -552,7 +589,7 @@ def run_client(flags, wire_chunks, second_payload=None, listen='loop', incl=None
         p.set(ssnet, 'set_non_blocking_io', lambda fd: None)
         p.set(ssh, 'connect', lambda *a, **k: (proc, reader, DummyFile(1)))
         p.set(client, 'Mux', RecMux)
-        sys.stderr = io.StringIO()
+        set_diag(level)
         try:
             client._main(make_listener(client, v4, v6, listen), None, fw, None, 'host', None, True, 32768,
                          None, None, False, auton, False, None, False, None)
@@ -575,6 +612,7 @@ def run_client(flags, wire_chunks, second_payload=None, listen='loop', incl=None
             res.handler = mux.got_routes
     finally:
         p.restore()
+        helpers.verbose = 0
         sys.stderr = old_stderr
         helpers.logprefix = old_prefix
         if old_notify is not None:
@@ -891,25 +929,29 @@ def split_lines(output):
     return list(io.BytesIO(output))
 
 
-def table_case(ctx, tool, lines, intents, flags, perline=True, label='table', verbose=0, real=False, regen=None,
+def table_case(ctx, tool, lines, intents, flags, perline=True, label='table', verbose=None, real=False, regen=None,
                listen=None, plan=None):
     """One routing table end to end.  `intents[i]` belongs to `lines[i]`.  `verbose`: server-side verbosity;
     `real`: the routing tool is a real child process on a real pipe; `regen`: how replay rebuilds a big table."""
     ssnet, client, server, helpers = _mods()
+    level = next_level()                     # diagnostics level of this case (rotation), unless directed
+    if verbose is None:
+        verbose = level
+    ctx.hist('level:%d' % verbose)
     output = b''.join(lines)
     log = CaseLog(label)
     log.add('begin ' + MODEL_TOOL[tool], 'ok')
     raised_line = None
     if perline:
         for ln, it in zip(lines, intents):
-            out = line_real(tool, ln)
+            out = line_real(tool, ln, verbose)
             log.add('l ' + hexb(ln), out)
             ctx.count()
             cls = out.split()[0]
             ctx.hist('%s:%s:%s' % (tool, it[0], cls))
             if cls != 'skip' or ln.strip():
                 log.nontrivial = True
-            line_oracle(ctx, tool, ln, it, out)
+            line_oracle(ctx, tool, ln, it, out, verbose)
             if cls == 'raise':
                 raised_line = ln
                 break
@@ -965,7 +1007,7 @@ def table_case(ctx, tool, lines, intents, flags, perline=True, label='table', ve
         # cut the wire at random places: the client's reads are segments
         cuts = sorted(set(ctx.rng.randrange(1, len(wire)) for _ in range(ctx.rng.choice([0, 1, 3])))) if len(wire) > 1 else []
         chunks = [wire[a:b] for a, b in zip([0] + cuts, cuts + [len(wire)])]
-        cr = run_client(flags, chunks, listen=listen, incl=incl, excl=excl)
+        cr = run_client(flags, chunks, listen=listen, incl=incl, excl=excl, level=verbose)
         log.add(end_cmd, head)
         log.ins.append(None)                     # `end` answers with two lines
         log.outs.append('client ' + cr.show())
@@ -979,12 +1021,13 @@ def table_case(ctx, tool, lines, intents, flags, perline=True, label='table', ve
             p = Patches()
             old_err = sys.stderr
             try:
-                sys.stderr = io.StringIO()
+                set_diag(verbose)
                 p.set(server.ssubprocess, 'Popen', FakePopen)
                 p.set(server, 'which', lambda nm, *a: ('/sbin/' + nm) if nm in TOOLS[tool] else None)
                 rts = list(server.list_routes())
             finally:
                 p.restore()
+                helpers.verbose = 0
                 sys.stderr = old_err
             pl = ''.join('%d,%s,%d\n' % r for r in rts).encode()
             log.add(end_cmd, 'pkt routes=%d len=%d adler=%d raise AssertionError' % (len(rts), len(pl), zlib.adler32(pl)))
@@ -1008,11 +1051,11 @@ def table_case(ctx, tool, lines, intents, flags, perline=True, label='table', ve
             if raised_line is None:
                 # per-line run did not locate it (perline off): find the first line that raises alone
                 for ln in lines:
-                    if line_real(tool, ln).startswith('raise'):
+                    if line_real(tool, ln, verbose).startswith('raise'):
                         raised_line = ln
                         break
             ctx.violation(KEY_JUNK if raised_line is not None else KEY_DELIV,
-                          case=dict(stream='line', tool=tool, line=hexb(raised_line if raised_line is not None else output),
+                          case=dict(stream='line', tool=tool, verbose=verbose, line=hexb(raised_line if raised_line is not None else output),
                                     intent=['omit']),
                           expected='a line that cannot be interpreted is skipped; the other routes are advertised',
                           observed='server.main raised %s while listing routes: the server process ends' % name,
@@ -1022,11 +1065,11 @@ def table_case(ctx, tool, lines, intents, flags, perline=True, label='table', ve
     return log
 
 
-def line_oracle(ctx, tool, ln, intent, out):
+def line_oracle(ctx, tool, ln, intent, out, level=0):
     cls = out.split()[0]
     exp = expected_of(intent) if tool != 'x' else None
     if cls == 'raise':
-        ctx.violation(KEY_JUNK, case=dict(stream='line', tool=tool, line=hexb(ln), intent=list(intent)),
+        ctx.violation(KEY_JUNK, case=dict(stream='line', tool=tool, verbose=level, line=hexb(ln), intent=list(intent)),
                       expected=('advertise %s/%d' % exp) if exp else 'line skipped, no exception',
                       observed='list_routes raised ' + out.split()[1], kind='input')
         return
@@ -1047,13 +1090,13 @@ def line_oracle(ctx, tool, ln, intent, out):
             if ip.split('.')[0] in ('0', '127'):
                 ok = False
             if not ok:
-                ctx.violation(KEY_WRONG, case=dict(stream='line', tool=tool, line=hexb(ln), intent=list(intent)),
+                ctx.violation(KEY_WRONG, case=dict(stream='line', tool=tool, verbose=level, line=hexb(ln), intent=list(intent)),
                               expected='a canonical network address with a prefix length 0..32, or nothing',
                               observed=out, kind='input')
         return
     if got != exp:
         key = KEY_BAREHOST if (intent[0] == 'barehost' and got is None) else KEY_WRONG
-        ctx.violation(key, case=dict(stream='line', tool=tool, line=hexb(ln), intent=list(intent)),
+        ctx.violation(key, case=dict(stream='line', tool=tool, verbose=level, line=hexb(ln), intent=list(intent)),
                       expected=('advertise %s/%d' % exp) if exp else 'nothing advertised (default / 0.x / 127.x / not a route)',
                       observed=out, kind='input')
 
@@ -1124,15 +1167,19 @@ def delivery_oracle(ctx, tcase, exp, known_gap, strict, cr, nframes):
 def client_case(ctx, flags, payload, second=False):
     ssnet, client, server, helpers = _mods()
     log = CaseLog('client2' if second else 'client')
+    level = next_level()
+    ctx.hist('level:%d' % level)
     if second:
-        cr = run_client(flags, [SYNC, frame(ssnet, b'')], second_payload=payload)
+        cr = run_client(flags, [SYNC, frame(ssnet, b'')], second_payload=payload, level=level)
         log.add('client2 %s %s' % (flags, hexb(payload)), 'client ' + cr.show())
     else:
-        cr = run_client(flags, [SYNC + frame(ssnet, payload)], listen='wild' if flags in ('111', '011') else 'loop')
+        cr = run_client(flags, [SYNC + frame(ssnet, payload)], listen='wild' if flags in ('111', '011') else 'loop',
+                        level=level)
         log.add('client %s %s' % (flags, hexb(payload)), 'client ' + cr.show())
     log.nontrivial = True
     ctx.count()
     ctx.hist('client:' + ('raise' if cr.error else 'ok'))
+    cr.level = level
     return log, cr
 
 
@@ -1142,9 +1189,17 @@ def unit_cases(ctx):
     log = CaseLog('unit')
     log.nontrivial = True
 
+    def real(fn, *args):
+        """one call into the real code at the next diagnostics level"""
+        old = set_diag(next_level())
+        try:
+            return fn(*args)
+        finally:
+            clear_diag(old)
+
     def ipm(s):
         try:
-            r = server._ipmatch(s)
+            r = real(server._ipmatch, s)
         except Exception as e:  # noqa
             return 'raise ' + excname(e)
         return 'none' if r is None else 'ok %d %d' % r
@@ -1186,14 +1241,14 @@ def unit_cases(ctx):
     masks = [contiguous(n) for n in range(33)] + [rng.getrandbits(32) for _ in range(ctx.scale(100, 2000))] + \
             [1 << i for i in range(32)] + [0x80000001, 0xff00ff00, 0x00ffffff]
     for m in masks:
-        log.add('maskbits %d' % m, str(server._maskbits((m, 32))))
-    log.add('maskbits N', str(server._maskbits(None)))
+        log.add('maskbits %d' % m, str(real(server._maskbits, (m, 32))))
+    log.add('maskbits N', str(real(server._maskbits, None)))
     fo = 2 ** 1024 - 2 ** 970
     for n, bits in [(1, 0), (1, 31), (1, 32), (3, 40), (-1, 8), (-1, 40), (0, 5), (1, -1), (5, -3), (-1, -1), (1, -1074), (1, -1075),
                     (1, -5000), (1, -(fo - 1)), (1, -fo), (1, -(2 ** 1024)), (7, -(10 ** 400))] + \
                    [(rng.randrange(-5, 2 ** 33), rng.randrange(-40, 41)) for _ in range(ctx.scale(50, 500))]:
         try:
-            v = 'ok %d' % server._shl(n, bits)
+            v = 'ok %d' % real(server._shl, n, bits)
         except OverflowError:
             v = 'raise OverflowError'
         log.add('shl %d %d' % (n, bits), v)
@@ -1263,13 +1318,13 @@ def gen_cases(ctx):
         pairs = [gen(rng) for _ in range(n)]
         flags = rng.choice(['101', '101', '101', '111', '011', '001', '100', '110', '000', '010'])
         logs.append(table_case(ctx, tool, [p[0] for p in pairs], [p[1] for p in pairs], flags,
-                               verbose=rng.choice([0, 0, 1, 2]), real=(i % 8 == 5)))
+                               verbose=[None, rng.choice([0, 0, 1, 2])][0], real=(i % 8 == 5)))   # draw kept: streams unchanged
 
     # sizes around the frame limit and far beyond it
     for target in [65535, 65534, 65536, 65535 + 13]:
         lines, exp = sized_table(target)
         logs.append(table_case(ctx, 'i', lines, [('route', ip, w) for ip, w in exp], '101',
-                               perline=ctx.thorough, label='sized:%d' % target, verbose=1 if target == 65535 else 0))
+                               perline=ctx.thorough, label='sized:%d' % target))
     for n in [5461, 5462] + ([40000] if ctx.thorough else []):
         lines, exp = minimal_table(n)
         logs.append(table_case(ctx, 'i', lines, [('route', ip, w) for ip, w in exp], '101',
@@ -1309,7 +1364,7 @@ def gen_cases(ctx):
     lg, cr = client_case(ctx, '101', b'2,10.0.0.0,8\n', second=True)
     logs.append(lg)
     if not cr.error:
-        ctx.violation(KEY_CLIENT + ':second-routes-message-accepted', case=dict(stream='client2', flags='101', payload=hexb(b'2,10.0.0.0,8\n')),
+        ctx.violation(KEY_CLIENT + ':second-routes-message-accepted', case=dict(stream='client2', flags='101', verbose=cr.level, payload=hexb(b'2,10.0.0.0,8\n')),
                       expected='the firewall is started exactly once; a second ROUTES message is refused',
                       observed=cr.show(), kind='input')
     return logs
@@ -1346,6 +1401,8 @@ def compare(ctx, logs):
 
 
 def run(ctx):
+    _case_counter[0] = 0
+    _level_shift[0] = int(ctx.seed)
     logs = gen_cases(ctx)
     for lg in logs:
         ctx.hist('case:' + lg.kind.split(':')[0])
@@ -1366,10 +1423,10 @@ def replay(ctx, rep):
     st = case.get('stream')
     if st == 'line':
         ln = common.unhex(case['line'])
-        out = line_real(case['tool'], ln)
+        out = line_real(case['tool'], ln, int(case.get('verbose') or 0))
         c2 = common.Ctx('C17', 'quick', 0)
-        line_oracle(c2, case['tool'], ln, tuple(case.get('intent') or ['omit']), out)
-        return bool(c2.violations), 'list_routes on %r: %s' % (ln[:80], out)
+        line_oracle(c2, case['tool'], ln, tuple(case.get('intent') or ['omit']), out, int(case.get('verbose') or 0))
+        return bool(c2.violations), 'list_routes (verbosity %s) on %r: %s' % (case.get('verbose') or 0, ln[:80], out)
     if st == 'table-size':
         regen = case.get('regen')
         if regen and regen.startswith('minimal:'):
@@ -1396,13 +1453,15 @@ def replay(ctx, rep):
         if status[0] != 'sent':
             return True, how + ' '.join(status)
         nframes = wire.count(struct.pack('!ccHH', b'S', b'S', 0, ssnet.CMD_ROUTES))
-        cr = run_client(case['flags'], [wire], listen=case.get('listen') or 'loop', incl=case.get('incl'), excl=case.get('excl'))
+        cr = run_client(case['flags'], [wire], listen=case.get('listen') or 'loop', incl=case.get('incl'), excl=case.get('excl'),
+                        level=verbose)
         if case.get('expect') is None and not regen:
             return bool(cr.error) or cr.starts != 1, how + 'client: ' + cr.show()
         problems = plan_problems(case['flags'], exp, [tuple(e) for e in (case.get('gap') or [])],
                                  bool(case.get('strict', True)), cr, 1, case.get('incl'), case.get('excl'))
         return bool(problems), how + ('; '.join(problems) if problems else 'plan holds all %d networks' % len(exp))
     if st == 'client2':
-        cr = run_client(case['flags'], [SYNC, frame(ssnet, b'')], second_payload=common.unhex(case['payload']))
+        cr = run_client(case['flags'], [SYNC, frame(ssnet, b'')], second_payload=common.unhex(case['payload']),
+                        level=int(case.get('verbose') or 0))
         return not cr.error, cr.show()
     return False, 'unknown replay stream %r' % st
